@@ -88,6 +88,40 @@ func siteProbes(cf *lib.CaseFile, rng *lib.Rng, n int) {
 			cf.Violation(idx, fmt.Sprintf("%s panicked: %v on %v", js["site"], p, js["args"]), class)
 		}
 	}
+	// deterministic part: every expression shape at the root, and as the only child of every wrapping shape
+	{
+		r := rng.Fork()
+		wrap := func(parent int, e physical.Expression, c string) (physical.Expression, string) {
+			one := []physical.Expression{e}
+			switch parent {
+			case 2:
+				return physical.Expression{ExpressionType: physical.ExpressionTypeFunctionCall, FunctionCall: &physical.FunctionCall{Name: "f", Arguments: one}}, "(XCall [" + c + "])"
+			case 3:
+				return physical.Expression{ExpressionType: physical.ExpressionTypeAnd, And: &physical.And{Arguments: one}}, "(XAnd [" + c + "])"
+			case 4:
+				return physical.Expression{ExpressionType: physical.ExpressionTypeOr, Or: &physical.Or{Arguments: one}}, "(XOr [" + c + "])"
+			case 6:
+				return physical.Expression{ExpressionType: physical.ExpressionTypeCoalesce, Coalesce: &physical.Coalesce{Arguments: one}}, "(XCoalesce [" + c + "])"
+			case 7:
+				return physical.Expression{ExpressionType: physical.ExpressionTypeTuple, Tuple: &physical.Tuple{Arguments: one}}, "(XTuple [" + c + "])"
+			case 8:
+				return physical.Expression{ExpressionType: physical.ExpressionTypeTypeAssertion, TypeAssertion: &physical.TypeAssertion{Expression: e}}, "(XAssert " + c + ")"
+			case 9:
+				return physical.Expression{ExpressionType: physical.ExpressionTypeTypeCast, TypeCast: &physical.TypeCast{Expression: e}}, "(XCast " + c + ")"
+			case 10:
+				return physical.Expression{ExpressionType: physical.ExpressionTypeObjectFieldAccess, ObjectFieldAccess: &physical.ObjectFieldAccess{Object: e, Field: "x"}}, "(XField " + c + ")"
+			}
+			return e, c
+		}
+		for k := 0; k <= 10; k++ {
+			for _, parent := range []int{-1, 2, 3, 4, 6, 7, 8, 9, 10} {
+				e, coq := genPExprKind(r, 1, k)
+				e, coq = wrap(parent, e, coq)
+				p := recovered(func() { e.VariablesUsed() })
+				add("CSiteVarsUsed "+coq, map[string]interface{}{"site": "variables_used", "args": coq, "deterministic_shape": true}, p, "c04-variables-used", reachesUnhandled(e))
+			}
+		}
+	}
 	for i := 0; i < n; i++ {
 		r := rng.Fork()
 		switch i % 9 {
@@ -189,6 +223,15 @@ func reachesUnhandled(e physical.Expression) bool {
 }
 
 func genPExpr(r *lib.Rng, depth int) (physical.Expression, string) {
+	k := r.Intn(11)
+	if depth <= 0 {
+		k = r.Intn(2)
+	}
+	return genPExprKind(r, depth, k)
+}
+
+// genPExprKind: an expression tree whose root has the given shape (0..10 = the eleven physical.ExpressionType values)
+func genPExprKind(r *lib.Rng, depth int, k int) (physical.Expression, string) {
 	kids := func() ([]physical.Expression, string) {
 		n := r.Intn(3)
 		es := make([]physical.Expression, n)
@@ -197,10 +240,6 @@ func genPExpr(r *lib.Rng, depth int) (physical.Expression, string) {
 			es[i], cs[i] = genPExpr(r, depth-1)
 		}
 		return es, lib.CoqList(cs)
-	}
-	k := r.Intn(11)
-	if depth <= 0 {
-		k = r.Intn(2)
 	}
 	switch k {
 	case 0:
@@ -463,13 +502,18 @@ func joinRetractionProbes(cf *lib.CaseFile, r *lib.Rng, n int) {
 			evs = append(evs, lib.Event{Rec: execution.NewRecord(row, retr, lib.T(0))})
 		}
 		key := func() []execution.Expression { return []execution.Expression{&colExpr{0}} }
+		// the other side stays open until this side's messages have been taken (a join stops keeping its tree once the
+		// other stream has ended): it ends 20 ms after this side's source has returned
+		done := make(chan struct{})
+		left := &signalSource{inner: &lib.ScriptSource{Events: evs}, done: done}
+		right := &waitSource{wait: done, extra: 20 * time.Millisecond}
 		var node execution.Node
 		kind := "StreamJoin"
 		if i%2 == 1 {
 			kind = "OuterJoin"
-			node = nodes.NewOuterJoin(&lib.ScriptSource{Events: evs}, &lib.ScriptSource{}, 2, 2, key(), key(), true, false)
+			node = nodes.NewOuterJoin(left, right, 2, 2, key(), key(), true, false)
 		} else {
-			node = nodes.NewStreamJoin(&lib.ScriptSource{Events: evs}, &lib.ScriptSource{}, key(), key())
+			node = nodes.NewStreamJoin(left, right, key(), key())
 		}
 		_, _, p := lib.RunNode(node)
 		js := map[string]interface{}{"site": "join_retraction", "join": kind, "ops(true=retraction)": ops, "panicked": p != nil}
@@ -492,4 +536,25 @@ type colExpr struct{ i int }
 
 func (c *colExpr) Evaluate(ctx execution.ExecutionContext) (octosql.Value, error) {
 	return ctx.VariableContext.Values[c.i], nil
+}
+
+type signalSource struct {
+	inner execution.Node
+	done  chan struct{}
+}
+
+func (s *signalSource) Run(ctx execution.ExecutionContext, produce execution.ProduceFn, metaSend execution.MetaSendFn) error {
+	defer close(s.done)
+	return s.inner.Run(ctx, produce, metaSend)
+}
+
+type waitSource struct {
+	wait  chan struct{}
+	extra time.Duration
+}
+
+func (w *waitSource) Run(ctx execution.ExecutionContext, produce execution.ProduceFn, metaSend execution.MetaSendFn) error {
+	<-w.wait
+	time.Sleep(w.extra)
+	return nil
 }
